@@ -23,11 +23,12 @@ Mono(s) == \A k \in 1 .. (Len(s) - 1) : s[k] <= s[k + 1] + Tol
 P(e, base) == (IF Has(e, "alt") THEN "C19+" ELSE "") \o (IF e.op.name = "clear" THEN "C19+" ELSE "") \o base
 Failing(e) ==
     LET gp == GhostPost(e)
-        ok == e.res # "panic"
+        ok == e.res # "panic" /\ ~Has(e, "obs_panic")
         o  == IF ok THEN e.obs_post ELSE [q |-> <<>>]
     IN
     Cl("TOOL.ghost", e.ghost_post = gp) \cup
-    Cl(P(e, "C16.total: the call panicked"), ok) \cup
+    Cl(P(e, "C16.total: the call panicked"), e.res # "panic") \cup
+    Cl(P(e, "C15+C16.total: a read method (count/sum/mean/quantile/cdf/n_centroids) panicked"), ~Has(e, "obs_panic")) \cup
     (IF ~ok THEN {} ELSE
        Cl(P(e, "C16.count = sum of inserted weights"), o.count16 = gp.w16) \cup
        Cl(P(e, "C16.sum = weighted sum of inserted values"), o.sum16 = gp.xw16) \cup
